@@ -49,24 +49,13 @@ impl<'a, F: PrimeCharacteristicRing + Eq> ExecutionContext<'a, F> {
     pub fn get_witness(&self, widx: WitnessId) -> Result<F, CircuitError> {
         let idx = widx.0 as usize;
 
-        #[cfg(debug_assertions)]
-        {
-            self.witness
-                .get(idx)
-                .and_then(Option::as_ref)
-                .map(p3_field::Dup::dup)
-                .ok_or(CircuitError::WitnessNotSet { witness_id: widx })
-        }
-
-        #[cfg(not(debug_assertions))]
-        unsafe {
-            Ok(self
-                .witness
-                .get_unchecked(idx)
-                .as_ref()
-                .unwrap_unchecked()
-                .dup())
-        }
+        // Checked in every profile: an unset slot (e.g. a private input that was never
+        // supplied) must be an error, not an unchecked read of an empty `Option`.
+        self.witness
+            .get(idx)
+            .and_then(Option::as_ref)
+            .map(p3_field::Dup::dup)
+            .ok_or(CircuitError::WitnessNotSet { witness_id: widx })
     }
 
     /// Set witness value at the given index.
